@@ -4,7 +4,7 @@ From Coq Require Import List NArith ZArith Bool Arith.
 From RecordUpdate Require Import RecordUpdate.
 From JV Require Import Bytes Msg SrvModel SrvLemmas SrvBasics SrvC07 SrvC01 SrvHist SrvC01b.
 From JV Require SrvNoCrash SrvC03.
-From JV Require Import SrvC08m SrvEventually.
+From JV Require Import SrvC08m SrvEventually SrvProgress.
 Import ListNotations.
 
 (* 1. tasks.responses: one element per call, in request order, with the call's id and body; an id-less member
@@ -403,3 +403,85 @@ Theorem c01_eventually_answered_naive_refuted :
     map u_st (units s') = [URunning] /\ map t_st (tasks s') = [TRunning].
 Proof. exact SrvEventually.c01_eventually_answered_naive_refuted. Qed.
 Print Assumptions c01_eventually_answered_naive_refuted.
+
+(* 14. with the handlers returning (srv/SrvProgress.v).  A PROGRESS label is a release label or a handler return (LGate):
+       what the server does on its own plus the one obligation of the environment (every handler it was given returns);
+       no new input, no API call.  Every window of a progress label strictly decreases the measure mu_prog, from every
+       reachable state; a progress run is maximal exactly when it is AT REST (quiescent, no handler executing).
+       [eventually_prog s P]: P holds in the last state of every maximal progress run from s; such runs exist and none
+       is longer than mu_prog s. *)
+Theorem c01_is_prog_spec : forall l, is_prog l = true <-> is_rel l = true \/ exists p o, l = LGate p o.
+Proof. exact is_prog_spec. Qed.
+Print Assumptions c01_is_prog_spec.
+
+Theorem c01_at_rest_spec : forall s, at_rest s = true <->
+  quiescent s = true /\ forall k t, nth_error (tasks s) k = Some t -> t_st t <> TRunning.
+Proof. exact at_rest_spec. Qed.
+Print Assumptions c01_at_rest_spec.
+
+Theorem c01_prog_step_decreases : forall c s l s' os, reach c s -> is_prog l = true -> step s l = Some (s', os) ->
+  mu_prog s' < mu_prog s.
+Proof. exact rel_step_decreases_p. Qed.
+Print Assumptions c01_prog_step_decreases.
+
+Theorem c01_mu_prog_spec : forall s, mu_prog s =
+  wsum ptw (tasks s) +
+  (prdw (rd s) + wsum pfw (ch_in s) + dpw (dp s) + wsum pew (inq s) + wsum uw (units s) + wsum cw (cbs s) +
+   wsum ow (ops s) + (if running s then 2 else 0)).
+Proof. exact mu_prog_spec. Qed.
+Print Assumptions c01_mu_prog_spec.
+
+(* the weights that differ from those of mu_rel (props/C08.v: c08_weights_spec) *)
+Theorem c01_prog_weights_spec :
+  (forall t, ptw t = match t_st t with TAtAcquire => 3 | TWaiting | TRunning => 2 | TAtHandled _ => 1 | TDone _ | TSkip => 0 end) /\
+  (forall bm, pew bm = 6 * Nat.max 1 (length (snd bm))) /\
+  (forall f, pfw f = match f with
+                     | FMsg (InMsgs _ ms) | FMsgEOF (InMsgs _ ms) => 1 + 6 * Nat.max 1 (length ms)
+                     | _ => 1
+                     end) /\
+  (forall r, prdw r = match r with RHold f => pfw f | _ => 0 end).
+Proof. exact prog_weights_spec. Qed.
+Print Assumptions c01_prog_weights_spec.
+
+Theorem c01_at_rest_iff_maximal : forall c s, reach c s ->
+  (at_rest s = true <-> forall l, is_prog l = true -> step s l = None).
+Proof. exact at_rest_iff_maximal. Qed.
+Print Assumptions c01_at_rest_iff_maximal.
+
+Theorem c01_prog_run_extends : forall c s tr s1 oss1, reach c s -> run s tr = Some (s1, oss1) ->
+  Forall (fun l => is_prog l = true) tr ->
+  length tr <= mu_prog s /\
+  exists tr2 s' oss2, run s (tr ++ tr2) = Some (s', oss1 ++ oss2) /\ Forall (fun l => is_prog l = true) (tr ++ tr2) /\
+    length (tr ++ tr2) <= mu_prog s /\ at_rest s' = true.
+Proof. exact prog_run_extends. Qed.
+Print Assumptions c01_prog_run_extends.
+
+Theorem c01_eventually_prog_spec : forall s P, eventually_prog s P <->
+  (exists tr s' oss, run s tr = Some (s', oss) /\ Forall (fun l => is_prog l = true) tr /\ length tr <= mu_prog s /\
+     at_rest s' = true) /\
+  (forall tr s' oss, run s tr = Some (s', oss) -> Forall (fun l => is_prog l = true) tr ->
+     length tr <= mu_prog s /\ (at_rest s' = true -> P tr s' oss)).
+Proof. exact eventually_prog_spec. Qed.
+Print Assumptions c01_eventually_prog_spec.
+
+Theorem c01_all_answered_spec : forall tr0 oss0 tr s' oss, c01_all_answered tr0 oss0 tr s' oss <->
+  inq s' = [] /\ (forall k t, nth_error (tasks s') k = Some t -> finished t = true) /\
+  (forall u, u < length (units s') ->
+     ufin s' u = true /\
+     (responses (unit_tasks s' u) <> [] -> countb (is_deliver u) (tr0 ++ tr) = 1) /\
+     (responses (unit_tasks s' u) = [] -> countb (is_deliver u) (tr0 ++ tr) = 0)) /\
+  unit_sends (tr0 ++ tr) (oss0 ++ oss) =
+    map (fun u => (u, ubatch s' u, responses (unit_tasks s' u))) (delivered (tr0 ++ tr)) /\
+  NoDup (delivered (tr0 ++ tr)) /\
+  (forall u, In u (delivered (tr0 ++ tr)) <-> u < length (units s') /\ responses (unit_tasks s' u) <> []).
+Proof. exact (fun tr0 oss0 tr s' oss => conj (fun x => x) (fun x => x)). Qed.
+Print Assumptions c01_all_answered_spec.
+
+(* after ANY history tr0, if every handler that is (or will be) entered returns and nothing new arrives, then within
+   mu_prog s windows the server is at rest with every accepted message answered: nothing queued, every task and unit
+   finished, each non-silent unit delivered exactly once with the responses of its tasks, each silent one never
+   (Concurrency >= 1; with Concurrency = 0 nothing ever runs: props/C08.v, c08_terminates_K0_refuted) *)
+Theorem c01_eventually_all_answered : forall c tr0 s oss0, run (init_of c) tr0 = Some (s, oss0) -> 0 < cf_K c ->
+  eventually_prog s (c01_all_answered tr0 oss0).
+Proof. exact SrvProgress.c01_eventually_all_answered. Qed.
+Print Assumptions c01_eventually_all_answered.
